@@ -24,7 +24,7 @@ from ..world import World, digest_obj, store_snapshot, walk_files, write_file
 
 L1S = ["copy", "hardlink", "symlink"]
 L2S = ["copy", "hardlink", "symlink", "default"]
-MUTS = ["none", "delete-a", "edit-a-uncached", "edit-a-cached", "add-untracked", "retype-a"]
+MUTS = ["none", "delete-a", "edit-a-uncached", "edit-a-cached", "add-untracked", "retype-a", "mtime0", "relocate-links"]
 OTHERS = ["none", "hardlink", "symlink"]
 
 
@@ -61,7 +61,7 @@ def one_exec(cfg):
         try:
             kw = {"state": state} if state is not None else {}
             odb = make_odb(cfg["kind"], w.p("cache"), **kw)
-            fill_cache(odb, ["A", "B"], extra=["x", "y", "e"])
+            fill_cache(odb, ["A", "B", "N", "P"], extra=["x", "y", "e"])
             cache0 = {k: v[0] for k, v in store_snapshot(odb.path).items() if isinstance(k, str)}
             ws = w.p("ws")
             env = cfg.get("env", "plain")
@@ -78,7 +78,8 @@ def one_exec(cfg):
                     write_file(os.path.join(ws, *rel.split("/")), data)
             # user mutation (kind-preserving)
             single = cfg["t0"] not in TREES
-            pa = ws if single else os.path.join(ws, "a")
+            fa = None if single else ("a" if "a" in TREES[cfg["t0"]] else sorted(TREES[cfg["t0"]])[0])
+            pa = ws if single else os.path.join(ws, *fa.split("/"))
             m = cfg["mut"]
             if single and m == "add-untracked":
                 m = "none"
@@ -89,8 +90,29 @@ def one_exec(cfg):
                 write_file(pa, UNCACHED if m == "edit-a-uncached" else CONTENTS["w" if False else "y"])
             elif m == "add-untracked":
                 write_file(os.path.join(ws, "s", "untracked"), b"untracked")
+            elif m == "mtime0":
+                # a file's timestamp is the epoch (restored from an archive with zeroed times)
+                os.utime(pa, ns=(0, 0))
+            elif m == "relocate-links":
+                # the symlinks of the prior checkout point into another copy of the cache (moved / old cache)
+                import shutil
+
+                if cfg["l1"] == "symlink":
+                    shutil.copytree(odb.path, w.p("cache-old"), symlinks=True)
+                    for root_, _d, fns in os.walk(ws):
+                        for fn in fns:
+                            lp = os.path.join(root_, fn)
+                            if os.path.islink(lp):
+                                tgt = os.readlink(lp)
+                                if tgt.startswith(odb.path):
+                                    os.unlink(lp)
+                                    os.symlink(w.p("cache-old") + tgt[len(odb.path):], lp)
+                    if single and os.path.islink(ws):
+                        tgt = os.readlink(ws)
+                        os.unlink(ws)
+                        os.symlink(w.p("cache-old") + tgt[len(odb.path):], ws)
             elif m == "retype-a":
-                data = CONTENTS[cfg["t0"] if single else TREES[cfg["t0"]]["a"]]
+                data = CONTENTS[cfg["t0"] if single else TREES[cfg["t0"]][fa]]
                 os.unlink(pa)
                 write_file(pa, data)  # same bytes, now an independent copy with a new inode
             # phase 2: forced checkout of the target with the configured link type
@@ -307,7 +329,8 @@ def run(ctx):
     ctx.require("relinked_to_hardlink", "relinked_to_symlink", "other_workspace_runs", "link_records_checked", "third_link_type_runs", "spelling_or_ignore_runs", "bulk_runs")
     cs = []
     for kind in ("local", "base"):
-        for t0, t1 in (("A", "A"), ("A", "B"), ("B", "A"), ("B", "B"), ("x", "x"), ("x", "y"), ("e", "x")):
+        for t0, t1 in (("A", "A"), ("A", "B"), ("B", "A"), ("B", "B"), ("x", "x"), ("x", "y"), ("e", "x"),
+                       ("N", "P"), ("P", "P")):
             for l1 in L1S:
                 cs.append({"base": {"kind": kind, "t0": t0, "t1": t1, "l1": l1}})
     ctx.run_cases("run_case", cs, chunksize=1, det=2)
